@@ -32,6 +32,20 @@ def spec_label(path):
 	return b
 
 
+def ensure_gz(path, tmp):
+	"""the bundled *.fasta.gz copies are git-ignored files that exist in this sandbox; if one is absent (a clean checkout) an
+	equivalent gzip copy is made on the fly (same base name, so the same label)"""
+	if not path.endswith('.gz') or os.path.exists(path):
+		return path
+	import gzip
+	d = os.path.join(tmp, 'gzcopies')
+	os.makedirs(d, exist_ok=True)
+	dst = os.path.join(d, os.path.basename(path))
+	with open(path[:-3], 'rb') as f, gzip.open(dst, 'wb') as g:
+		g.write(f.read())
+	return dst
+
+
 def _cli(argv):
 	from gambit.cli import cli
 	import click
@@ -140,7 +154,7 @@ def run_case(case):
 		fmt = case.get('fmt', 'csv')
 		gz = case.get('gz', [False] * len(genomes))
 		gdir = os.path.join(root, 'queries', 'genomes')
-		paths = [os.path.join(gdir, g + ('.fasta.gz' if z else '.fasta')) for g, z in zip(genomes, gz)]
+		paths = [ensure_gz(os.path.join(gdir, g + ('.fasta.gz' if z else '.fasta')), tmp) for g, z in zip(genomes, gz)]
 		names = case.get('names')
 		if names:
 			# the same genomes copied under caller-chosen (possibly colliding) file names: only the label column may change
@@ -174,7 +188,7 @@ def run_case(case):
 			lf = os.path.join(tmp, 'list.txt')
 			with open(lf, 'w') as f:
 				for g, z, pth in zip(genomes, gz, paths):
-					f.write((os.path.relpath(pth, gdir) if names else g + ('.fasta.gz' if z else '.fasta')) + '\n')
+					f.write((os.path.relpath(pth, gdir) if names else (os.path.basename(pth) if os.path.dirname(pth) == gdir else pth)) + '\n')
 					if case.get('blank_lines'):
 						f.write('\n')
 			argv += ['-l', lf, '--ldir', gdir]
